@@ -57,13 +57,13 @@ Definition run_dict (x : cls * amap Z * dop) : J :=
   let r :=
     match op with
     | OpSub ks => d_sub c d ks
-    | OpAnd ks => d_and_py init_z c d ks
+    | OpAnd ks => d_and_py init_z whole_z c d ks
     | OpGetList ks => d_getlist_py init_z whole_z c d ks
     | OpGetTuple ks => d_gettuple d ks
     | OpAttr k => d_attr d k
     | OpAdd oc o => d_add c d oc o
     | OpOr oc o => d_or_py init_z whole_z c d o
-    | OpRelabel a kw => d_relabel_py init_z c d a kw
+    | OpRelabel a kw => d_relabel_py init_z whole_z c d a kw
     | OpKeys => d_keys d
     | OpKeysSub ks => DKeys (ul_sub String.eqb (akeys d) ks)
     | OpKeysAnd ks => DKeys (ul_and String.eqb (akeys d) ks)
